@@ -25,3 +25,20 @@ Example C05_ex :
   names "p" (Struct [("lo", Leaf CI64); ("hi", Struct [("values", Leaf CF64); ("null", Leaf CBool)])])
   = [("p_lo", CI64); ("p_hi_values", CF64); ("p_hi_null", CBool)].
 Proof. reflexivity. Qed.
+
+(* ---- values: flatten by the schema, reassemble by the schema ---------------------------------------------------------- *)
+(* for arbitrarily nested struct dtypes and any element type: what _deconstruct_inputs/_flatten produces, looked up and
+   reassembled the way _assemble_outputs.helper does, is the original value — whenever the flattened names (a function of the
+   dtype alone) are pairwise distinct; also inside a larger table of other inputs / outputs *)
+From ND Require Import Ndx.BuildRT.
+Theorem C05_schema_round_trip_of_values : forall (V : Type) d n (v : vtree V) top, shaped V v d = true -> NoDup (map fst (names n d)) ->
+  assemble V true top n d (flatten V n d v) = Some v.
+Proof. exact schema_round_trip. Qed.
+Theorem C05_schema_round_trip_in_context : forall (V : Type) d n (v : vtree V) top pre post, shaped V v d = true ->
+  NoDup (map fst (pre ++ flatten V n d v ++ post)) ->
+  assemble V true top n d (pre ++ flatten V n d v ++ post)%list = Some v.
+Proof. exact schema_round_trip_in_context. Qed.
+Theorem C05_flattened_names_depend_on_the_dtype_only : forall (V : Type) d n (v : vtree V), shaped V v d = true ->
+  map fst (flatten V n d v) = map fst (names n d).
+Proof. exact flatten_names. Qed.
+Print Assumptions C05_schema_round_trip_of_values.
